@@ -237,15 +237,24 @@ func execPubCase(x *execCtx) {
 				}
 			}
 			out(line, r.observe("got="+got+" "))
-		case "closesub":
-			k := atoi(f["sub"]) - 1
-			if k >= 0 && k < len(r.subs) {
-				r.subs[k].s.Close()
+		case "closesub", "closepub":
+			// a close must complete promptly whatever is pending (C10): a close that waits for a delivery's timeout is a hang
+			done := make(chan struct{})
+			go func() {
+				defer close(done)
+				if toks[0] == "closepub" {
+					r.p.Close()
+				} else if k := atoi(f["sub"]) - 1; k >= 0 && k < len(r.subs) {
+					r.subs[k].s.Close()
+				}
+			}()
+			select {
+			case <-done:
+				out(line, r.observe(""))
+			case <-time.After(3 * time.Second):
+				out(line, "hang:close_did_not_return_within_3s")
+				os.Exit(3)
 			}
-			out(line, r.observe(""))
-		case "closepub":
-			r.p.Close()
-			out(line, r.observe(""))
 		case "sleep":
 			time.Sleep(pubSleep)
 			r.epochStart = time.Now()
@@ -300,15 +309,26 @@ func pubStress(P, S, M, closers int, seed uint64) string {
 	}
 	rg := newRng(seed)
 	subs := make([]*subRec, S)
+	// the subscribers register concurrently (every interleaving of Subscribe is in the quantifier)
+	var wgS sync.WaitGroup
+	startS := make(chan struct{})
 	for i := range subs {
 		sr := &subRec{even: rg.chance(1, 3)}
-		opts := []publisher.SubscriberOption[int]{publisher.WithTimeout[int](20 * time.Second)}
-		if sr.even {
-			opts = append(opts, publisher.WithFilter(func(v int) bool { return v%2 == 0 }))
-		}
-		sr.s = p.Subscribe(rg.intn(4), opts...)
+		buf := rg.intn(4)
 		subs[i] = sr
+		wgS.Add(1)
+		go func() {
+			defer wgS.Done()
+			opts := []publisher.SubscriberOption[int]{publisher.WithTimeout[int](20 * time.Second)}
+			if sr.even {
+				opts = append(opts, publisher.WithFilter(func(v int) bool { return v%2 == 0 }))
+			}
+			<-startS
+			sr.s = p.Subscribe(buf, opts...)
+		}()
 	}
+	close(startS)
+	wgS.Wait()
 	for c := 0; c < closers && c < S; c++ {
 		subs[c].closedA = true
 	}
